@@ -390,7 +390,7 @@ tiers:
 	}
 	params := &conf.SchedulerParams{
 		SchedulerName:                     SchedulerName,
-		PartitionParams:                   &conf.SchedulingNodePoolParams{},
+		PartitionParams:                   &conf.SchedulingNodePoolParams{NodePoolLabelKey: c.PoolKey, NodePoolLabelValue: c.PoolVal},
 		MaxNumberConsolidationPreemptees:  16,
 		UseSchedulingSignatures:           c.Signatures == 1,
 		FullHierarchyFairness:             c.FullHier != 0,
